@@ -331,22 +331,14 @@ func registerIntrinsics(m *Machine) {
 		if x.IsConst() {
 			return tt.BVConst(64, uint64(x.Big.BitLen()))
 		}
+		// one term (ite chain over the bit length) instead of a fork per length
 		mx := m.maxBigBytes() * 8
-		conds := make([]*Term, 0, mx+2)
-		for l := 0; l <= mx; l++ {
-			hi := tt.IntConst(new(big.Int).Lsh(big.NewInt(1), uint(l)))
-			cnd := tt.ILt(x, hi)
-			if l > 0 {
-				cnd = tt.And(tt.ILe(tt.IntConst(new(big.Int).Lsh(big.NewInt(1), uint(l-1))), x), cnd)
-			}
-			conds = append(conds, cnd)
+		m.requireWithin(x, mx)
+		l := tt.BVConst(64, uint64(mx))
+		for k := mx - 1; k >= 0; k-- {
+			l = tt.Ite(tt.ILt(x, tt.IntConst(new(big.Int).Lsh(big.NewInt(1), uint(k)))), tt.BVConst(64, uint64(k)), l)
 		}
-		conds = append(conds, tt.ILe(tt.IntConst(new(big.Int).Lsh(big.NewInt(1), uint(mx))), x))
-		k := m.Fork(conds)
-		if k > mx {
-			panic(&pathEnd{endUnwind, "BitLen beyond big_bytes bound"})
-		}
-		return tt.BVConst(64, uint64(k))
+		return l
 	}
 	I["(*math/big.Int).Bytes"] = func(m *Machine, fr *frame, a []Value, c *ssa.CallCommon) Value {
 		abs := tt.IAbs(m.bigOf(a[0]))
@@ -778,6 +770,8 @@ func (m *Machine) newHasher(kind string, outLen int) Value {
 	return IfaceV{T: opaqueHashType, V: OpaqueV{Kind: "hasher", ID: m.TT.IntConst64(int64(id))}}
 }
 
+var opaqueRandType = types.NewNamed(types.NewTypeName(0, nil, "engineRandSource", nil), types.NewStruct(nil, nil), nil)
+
 var opaqueHashType = types.NewNamed(types.NewTypeName(0, nil, "engineHasher", nil), types.NewStruct(nil, nil), nil)
 
 func (m *Machine) opaqueMethod(fr *frame, ov OpaqueV, iv IfaceV, name string, args []Value, c *ssa.CallCommon) Value {
@@ -971,6 +965,29 @@ func (m *Machine) cellAddr(c *Cell) uint64 {
 func registerMoreIntrinsics(m *Machine) {
 	I := m.intrinsic
 	tt := m.TT
+	registerCryptoIntrinsics(m)
+	// math/rand: a source is an opaque object; every draw is a fresh nondeterministic value
+	I["math/rand.NewSource"] = func(m *Machine, fr *frame, a []Value, c *ssa.CallCommon) Value {
+		return IfaceV{T: opaqueRandType, V: OpaqueV{Kind: "randsource", ID: tt.IntConst64(0)}}
+	}
+	I["math/rand.New"] = func(m *Machine, fr *frame, a []Value, c *ssa.CallCommon) Value {
+		return PtrV{C: &Cell{Epoch: m.epoch, V: OpaqueV{Kind: "rand", ID: tt.IntConst64(0)}}}
+	}
+	I["(*math/rand.Rand).Int"] = func(m *Machine, fr *frame, a []Value, c *ssa.CallCommon) Value {
+		return tt.BvBin(OBvAnd, m.Nondet("rand.Int", BV(64), "u64"), tt.BVConst(64, 1<<63-1))
+	}
+	I["(*math/rand.Rand).Intn"] = func(m *Machine, fr *frame, a []Value, c *ssa.CallCommon) Value {
+		n := a[1].(*Term)
+		r := m.Nondet("rand.Intn", BV(64), "u64")
+		m.Assume(tt.BvCmp(OBvUlt, r, n))
+		return r
+	}
+	I["math/rand.Intn"] = func(m *Machine, fr *frame, a []Value, c *ssa.CallCommon) Value {
+		n := a[0].(*Term)
+		r := m.Nondet("rand.Intn", BV(64), "u64")
+		m.Assume(tt.BvCmp(OBvUlt, r, n))
+		return r
+	}
 	I["reflect.ValueOf"] = func(m *Machine, fr *frame, a []Value, c *ssa.CallCommon) Value {
 		return OpaqueV{Kind: "reflect.Value", ID: tt.IntConst64(0), Payload: a[0]}
 	}
